@@ -214,12 +214,10 @@ theorem dop853_stiff_reflect {n : Nat} (k4 k3 k5 y1 : Vector K n) (h hl : K) :
   simp only [Gen.Dop853.stiff, Gen.Dop853.stiff_loop1, vneg, Vector.getElem_ofFn, Fin.getElem_fin, sq_neg_sub, num_abs, abs_neg]
   rfl
 
-theorem dopri5_stiff_reflect {n : Nat} (k2 k6 y k1 k3 k4 k5 y1 : Vector K n) (h hl : K) :
-    (Gen.Dopri5.stiff (k2 := vneg k2) (k6 := vneg k6) (y := y) (h := -h) (k1 := vneg k1) (k3 := vneg k3) (k4 := vneg k4)
-        (k5 := vneg k5) (y1 := y1) (hlamb := hl)).hlamb
-      = (Gen.Dopri5.stiff (k2 := k2) (k6 := k6) (y := y) (h := h) (k1 := k1) (k3 := k3) (k4 := k4) (k5 := k5) (y1 := y1)
-        (hlamb := hl)).hlamb := by
-  simp only [Gen.Dopri5.stiff, Gen.Dopri5.stiff_loop1, vneg, Vector.getElem_ofFn, Fin.getElem_fin, sq_neg_sub, neg_h_comb, num_abs, abs_neg]
+theorem dopri5_stiff_reflect {n : Nat} (k2 k6 y1 ysti : Vector K n) (h hl : K) :
+    (Gen.Dopri5.stiff (k2 := vneg k2) (k6 := vneg k6) (y1 := y1) (ysti := ysti) (h := -h) (hlamb := hl)).hlamb
+      = (Gen.Dopri5.stiff (k2 := k2) (k6 := k6) (y1 := y1) (ysti := ysti) (h := h) (hlamb := hl)).hlamb := by
+  simp only [Gen.Dopri5.stiff, Gen.Dopri5.stiff_loop1, vneg, Vector.getElem_ofFn, Fin.getElem_fin, sq_neg_sub, num_abs, abs_neg]
   rfl
 
 /-! ### the automatic first step (`hinit`) under time reflection -/
